@@ -11,7 +11,8 @@
 From Coq Require Import List ZArith NArith String Bool.
 Import ListNotations.
 From Verif Require Import Common.Base Model.Fmtp Model.Codec Model.HeaderExt Model.Section
-     Proofs.Codec Proofs.Section.
+     Proofs.Codec Proofs.Section Proofs.ExtNeg.
+From Coq Require Import Lia.
 Open Scope string_scope.
 
 (* after filterUnattachedRTX every RTX entry's apt names a payload type of the
@@ -72,6 +73,31 @@ Theorem c10_engine_lists_pt_unique : forall l c,
   NoDup (map c_pt l) -> NoDup (map c_pt (fst (add_codec l c))).
 Proof. exact add_codec_nodup. Qed.
 Print Assumptions c10_engine_lists_pt_unique.
+
+(* negotiated branch, under a guard on the remote description: when every
+   extmap id it uses lies within 1..14 and a URI is never offered under two
+   different ids (across all its sections), then for every registration
+   sequence, kind, direction set and remote section filter the extmap lines
+   have distinct ids within 1..14 and each URI once (the two refutations above
+   are exactly the two ways of leaving this guard) *)
+Theorem c10_negotiated_ext_ids_partial : forall regs secs e e' x' r k dirs rem,
+  remote_exts_regular (all_pairs secs) ->
+  update_remote_x e (registered regs) secs = (e', x', r) ->
+  let l := filter_match rem (ext_params x' true k dirs) in
+  NoDup (map fst l) /\ (forall iu, In iu l -> (1 <= fst iu <= 14)%Z) /\ NoDup (map snd l).
+Proof. exact negotiated_ext_ids. Qed.
+Print Assumptions c10_negotiated_ext_ids_partial.
+
+Example c10_remote_exts_regular_nontrivial :
+  remote_exts_regular (all_pairs [mkRsec KVideo [] [(3%Z, w_mid); (5%Z, "urn:x:a")]; mkRsec KAudio [] [(3%Z, w_mid)]]).
+Proof.
+  split.
+  - intros i u H. cbn in H. repeat (destruct H as [H|H]; [inversion H; subst; lia|]). destruct H.
+  - intros i u i' u' H H' Hu. cbn in H, H'.
+    repeat (destruct H as [H|H]; [inversion H; subst; clear H|]); try destruct H;
+    repeat (destruct H' as [H'|H']; [inversion H'; subst; clear H'|]); try destruct H';
+    try reflexivity; discriminate.
+Qed.
 
 (* the full statement is false for the code as it is: *)
 (* a remote extmap id 20 is echoed in the answer *)
